@@ -70,17 +70,29 @@ func (fe *FuncEnc) mapCellAssume(f *Frame, mt *types.Map, m, k, v Term, has Term
 }
 
 // appendCellCheck: every appended element satisfies the element component's invariant.
-func (fe *FuncEnc) appendCellCheck(f *Frame, elemT types.Type, b Term, e Term, st *State, path Term, pos token.Pos) {
+func (fe *FuncEnc) appendCellCheck(f *Frame, elemT types.Type, b Term, e Term, constN int64, st *State, path Term, pos token.Pos) {
 	comp := "E_" + sortKey(fe.eng.sorts.sortOf(elemT))
 	ci := fe.cellInvFor(comp)
 	if ci == nil {
+		return
+	}
+	label := fe.srcLabel(pos, "call") + "." + strings.TrimPrefix(ci.Expr.Label, "cell.")
+	if constN >= 0 {
+		for k := int64(0); k < constN; k++ {
+			elem := tSelect(tSelect(e, slRef(b)), tAdd(slOff(b), tInt(k)))
+			fe.emit("cell", label, path, fe.evalCellInv(ci, elem, elemT, st), ci.Expr.Text, pos)
+		}
+		return
+	}
+	// the appended run comes from a slice of the same component: its cells satisfy the invariant already
+	if e.S == fe.comp(st, comp, e.Sort).S {
 		return
 	}
 	k := Term{"q_app", SInt}
 	elem := tSelect(tSelect(e, slRef(b)), tAdd(slOff(b), k))
 	body := fe.evalCellInv(ci, elem, elemT, st)
 	goal := Term{"(forall ((q_app Int)) (=> (and (<= 0 q_app) (< q_app (s.len " + b.S + "))) " + body.S + "))", SBool}
-	fe.emit("cell", fe.srcLabel(pos, "call")+"."+strings.TrimPrefix(ci.Expr.Label, "cell."), path, goal, ci.Expr.Text, pos)
+	fe.emit("cell", label, path, goal, ci.Expr.Text, pos)
 }
 
 // ---------------------------------------------------------------------
